@@ -53,7 +53,7 @@ func confLabel(p map[string]string) string {
 func init() {
 	Register(&Prop{ID: "C03",
 		Meta: Meta{Stages: 2, Level: "fault_enumeration",
-			Rule:       "stage 0: a fault-free profile run per protocol configuration (and for net/rpc and gRPC also with the host working through a client that REATTACHED to a plugin another client started) records every schedule point (statement boundary) and kernel event (listen, stdout/stderr pipe write, accept, every socket write, close) the PLUGIN process passes, and every schedule point a HOST goroutine passes, while the host runs start, connect, dispense, unary call, streaming call, brokered connection in both directions, stdio write, ping, a slow call, kill; stage 1: one run per recorded point (first 1 (quick) / 3 (thorough) occurrences) in which the plugin is killed (thorough: also exit(3) and panic) exactly there - for host points: killed exactly while the host goroutine is at that statement, which then stays there 50 ms; plus every FAILING SYSTEM CALL in turn (a profile with all fault kinds armed but none firing lists every decision point the session reaches - connect refused, connection reset on the k-th write of each socket, listen / pipe / temp file / fork failing - and stage 1 fails exactly one of them per run), plus blocking dials (grpc.WithBlock() among the host's dial options / on a brokered dial) to a plugin that died before the dial: an error, not a wait for ever; plus a group in which the plugin fails DURING the handshake (8 kinds of rejected first line x 0/1/3 further stdout lines behind it x exit/stay/close-stdout x gap), plus seeded runs: crash at a drawn simulated instant with schedule noise, wake-up order noise, and in a quarter of them connection faults instead (resets in the middle of calls, refused and slow connects). Oracle: every host call returns within its bound (no hang), no host panic, calls issued after the death that need the plugin return an error, afterwards Exited() is true and the context given to GRPCPlugin.GRPCClient is cancelled",
+			Rule:       "stage 0: a fault-free profile run per protocol configuration (and for net/rpc and gRPC also with the host working through a client that REATTACHED to a plugin another client started) records every schedule point (statement boundary) and kernel event (listen, stdout/stderr pipe write, accept, every socket write, close) the PLUGIN process passes, and every schedule point a HOST goroutine passes, while the host runs start, connect, dispense, unary call, streaming call, brokered connection in both directions, stdio write, ping, a slow call, kill; stage 1: one run per recorded point (first 1 (quick) / 3 (thorough) occurrences) in which the plugin is killed (thorough: also exit(3) and panic) exactly there - for host points: killed exactly while the host goroutine is at that statement, which then stays there 50 ms; plus every FAILING SYSTEM CALL in turn (a profile with all fault kinds armed but none firing lists every decision point the session reaches - connect refused, connection reset on the k-th write of each socket, listen / pipe / temp file / fork failing - and stage 1 fails exactly one of them per run), plus blocking dials (grpc.WithBlock() among the host's dial options / on a brokered dial) to a plugin that died before the dial: an error, not a wait for ever; plus a group in which the plugin fails DURING the handshake (11 kinds of rejected or cut-off first line x 0/1/3 further stdout lines behind it x exit/stay/close-stdout x gap), plus seeded runs: crash at a drawn simulated instant with schedule noise, wake-up order noise, and in a quarter of them connection faults instead (resets in the middle of calls, refused and slow connects). Oracle: every host call returns within its bound (no hang), no host panic, calls issued after the death that need the plugin return an error, afterwards Exited() is true and the context given to GRPCPlugin.GRPCClient is cancelled",
 			Exhaustive: "every schedule point and kernel event the plugin process passes in the profiled operation sequence, per protocol configuration (3 quick / 6 thorough), first occurrence (quick) or first three (thorough)"},
 		Plan: func(tier string, seed uint64, stage int, prev []*h.Result) []*k.Spec {
 			confs := append(append([]map[string]string{}, c03Confs[:3]...), c03ReattachConfs...)
@@ -246,6 +246,14 @@ var c03BadLines = []struct{ name, line string }{
 	{"cert", "1|1|unix|{ADDR}|grpc|!!not-base64!!\n"},
 	{"no-mux", "1|1|unix|{ADDR}|grpc||false\n"},
 	{"few-fields", "1|1|unix\n"},
+	// the plugin dies in the middle of writing its line (what is there ends
+	// without a newline), or announces a TCP address that does not resolve
+	{"cut-tcp-host", "1|1|tcp|127.0.0.1"},
+	{"cut-tcp-port", "1|1|tcp|127.0.0.1:"},
+	{"tcp-no-port", "1|1|tcp|127.0.0.1|grpc|\n"},
+	// (a cut that leaves four well-formed fields - "1|1|unix|/tmp/plu" - is not
+	// here: the host cannot tell it from the complete line of an old plugin
+	// and accepts it; the first connect then fails)
 }
 
 // runC03HS: the plugin fails during the handshake.
@@ -278,7 +286,7 @@ func runC03HS(r *h.Run) {
 		return
 	}
 	if o.Err == nil {
-		r.Violate("setup", "bad handshake accepted "+ctx, "")
+		r.Violate("no-error", "op=Start "+ctx, fmt.Sprintf("Start returned no error (address %v) although the plugin failed during the handshake", o.Val))
 	}
 	// the host keeps using the client as it would any other
 	for _, name := range []string{"Client", "Start2"} {
